@@ -40,11 +40,17 @@ FN(st, o) == FullNameIn(o, st.objs)
 Get(st, q) == IF q \in DOMAIN st.all THEN st.all[q] ELSE NoObj
 Cls(st, o) == st.objs[o].cls
 
-\* System._subtree(o): every registered object whose key is o's qualified name or lies below it - this
-\* includes the older definitions superseded by duplicates, which are not in `contents` any more
+\* System._subtree(o): o itself and every registered object whose key lies below o's qualified name AND whose parent
+\* chain leads to o - this includes the older definitions superseded by duplicates (not in `contents` any more) and
+\* excludes objects that took over a name in o's namespace after a name clash
 IsPrefixOf(a, b) == Len(a) <= Len(b) /\ SubSeq(b, 1, Len(a)) = a
-SubIn(o, all, objs) == {all[k] : k \in {k \in DOMAIN all : IsPrefixOf(FullNameIn(o, objs), k)}}
+RECURSIVE Below(_, _, _)
+Below(x, o, objs) == objs[x].par # NoObj /\ (objs[x].par = o \/ Below(objs[x].par, o, objs))
+SubIn(o, all, objs) == {o} \cup {all[k] : k \in {k \in DOMAIN all : Len(k) > Len(FullNameIn(o, objs)) /\ IsPrefixOf(FullNameIn(o, objs), k)
+                                                                       /\ Below(all[k], o, objs)}}
 Sub(st, o) == SubIn(o, st.all, st.objs)
+\* System._unregister: the keys of these objects are removed unless another object has taken the name over
+Unreg(all, objs, S) == [k \in {k \in DOMAIN all : ~(\E x \in S : FullNameIn(x, objs) = k /\ all[k] = x)} |-> all[k]]
 
 OrdPut(s, n) == IF n \in Rng(s) THEN s ELSE Append(s, n)            \* dict: re-assigning keeps the position
 OrdDel(s, n) == SelectSeq(s, LAMBDA x : x # n)
@@ -73,28 +79,23 @@ AddObj(st, cls, name, par, site) ==
              i     == CHOOSE i \in 0..Len(st.objs) : WithDup(i) \notin DOMAIN st.all /\ \A j \in 0..(i-1) : WithDup(j) \in DOMAIN st.all
              prev  == st.all[key]
              sub   == SubIn(prev, st.all, objs1)
-             oldks == {FullNameIn(x, objs1) : x \in sub}
              objs2 == [objs1 EXCEPT ![prev].name = DupName(name, i)]
-             a1    == [k \in DOMAIN st.all \ oldks |-> st.all[k]]
+             a1    == Unreg(st.all, objs1, sub)
              newk  == {FullNameIn(x, objs2) : x \in sub}
              a2    == [k \in DOMAIN a1 \cup newk |-> IF k \in newk THEN CHOOSE x \in sub : FullNameIn(x, objs2) = k ELSE a1[k]]
-         IN IF ~(oldks \subseteq DOMAIN st.all) \/ Cardinality(oldks) # Cardinality(sub)   \* `del self.allobjects[...]` raises KeyError
-              THEN [base EXCEPT !.crash = TRUE]
-              ELSE [base EXCEPT !.objs = objs2, !.all = Put(a2, key, o)]
+         IN [base EXCEPT !.objs = objs2, !.all = Put(a2, key, o)]
 
 \* ---------------------------------------------------------------- Documentable.reparent(new_parent, new_name)
 Reparent(st, ob, np, nn) ==
   LET sub   == Sub(st, ob)
-      oldks == {FN(st, x) : x \in sub}
       op    == st.objs[ob].par
       on    == st.objs[ob].name.b
       objs1 == [st.objs EXCEPT ![ob].par = np, ![ob].name = P(nn)]
-      a1    == [k \in DOMAIN st.all \ oldks |-> st.all[k]]
+      a1    == Unreg(st.all, st.objs, sub)
       newk  == {FullNameIn(x, objs1) : x \in sub}
       all1  == [k \in DOMAIN a1 \cup newk |-> IF k \in newk THEN CHOOSE x \in sub : FullNameIn(x, objs1) = k ELSE a1[k]]
-  IN IF \/ ~(oldks \subseteq DOMAIN st.all) \/ Cardinality(oldks) # Cardinality(sub)   \* del allobjects[..]: KeyError
-        \/ op = NoObj \/ Cls(st, op) \notin Scopes              \* assert isinstance(old_parent, CanContainImports..)
-        \/ st.objs[ob].name.d # 0 \/ on \notin DOMAIN st.cont[op]                         \* del old_parent.contents[old_name]: KeyError
+  IN IF \/ op = NoObj \/ Cls(st, op) \notin Scopes              \* assert isinstance(old_parent, CanContainImports..)
+        \/ st.objs[ob].name.d # 0 \/ on \notin DOMAIN st.cont[op]  \* del old_parent.contents[old_name]: KeyError
        THEN [st EXCEPT !.crash = TRUE]
        ELSE LET cont1 == [st.cont EXCEPT ![op] = Del(@, on)]
                 ord1  == [st.ord EXCEPT ![op] = OrdDel(@, on)]
